@@ -27,3 +27,9 @@ func isUnexpectedEOF(err error) bool { return err == io.ErrUnexpectedEOF }
 //@ ensures nonnil: result != nil
 //@ ensures not-eof: !isUnexpectedEOF(result)
 //@ ensures not-utf8: result != ErrInvalidUTF8
+
+// QuoteRune only builds text for error and panic messages; it is pure.
+//
+//@ func QuoteRune
+//@ property C20
+//@ ensures len(result) >= 0
